@@ -240,6 +240,7 @@ Inductive nfun : Type :=
 | FSubYf                       (* H += ">sub.yf{sorted log}"                     *)
 | FOj                          (* joinV "oj", H += "{outer:log}"                 *)
 | FWfL | FWfR | FWfM           (* the three nodes of the workflow                *)
+| FWfC                         (* its guard node: rejects the input "a4"         *)
 | FZ                           (* H += ">z{log|sum}"                             *)
 | FRec                         (* calls the graph it belongs to again (re-entrant run) *)
 | FModel (role : string) (ntools : nat)   (* the scripted fake chat model                *)
@@ -710,12 +711,14 @@ Definition apply_comp (f : nfun) (vals : list string) (v : val) (st : option stv
       | _, _ => (Fail "other", st, ["n:l"])
       end
   | FWfR, VS s => (OK (VM [("v", VS ("r(" ++ s ++ ")"))]), st, ["n:r"])
+  | FWfC, VS s =>
+      if String.eqb s "a4" then (Fail "node:c", st, ["n:c"]) else (OK (VS ("c(" ++ s ++ ")")), st, ["n:c"])
   | FWfM, VM kv =>
-      match alist_get "ID" kv, alist_get "X" kv, alist_get "Y" kv, alist_get "S" kv with
-      | Some (VS id), Some (VS x), Some (VS y), Some (VS s) =>
-          (OK (VS ("WOut{" ++ id ++ "|m(" ++ x ++ ";" ++ y ++ ";" ++ s ++ ")" ++ ostr vals ++ "|" ++ s ++ "}")), st,
+      match alist_get "ID" kv, alist_get "X" kv, alist_get "Y" kv, alist_get "S" kv, alist_get "C" kv with
+      | Some (VS id), Some (VS x), Some (VS y), Some (VS s), Some (VS c) =>
+          (OK (VS ("WOut{" ++ id ++ "|m(" ++ x ++ ";" ++ y ++ ";" ++ s ++ ";" ++ c ++ ")" ++ ostr vals ++ "|" ++ s ++ "}")), st,
            "n:m" :: optev "m" vals)
-      | _, _, _, _ => (Fail "other", st, ["n:m"])
+      | _, _, _, _, _ => (Fail "other", st, ["n:m"])
       end
   | FModel role ntools, VMsgs input =>
       let a := model_answer role ntools vals input in
